@@ -95,7 +95,7 @@ def run(prop, tier, seed, work):
                             {"op": "encode", "ty": "Sd", "v": vi, "byval": True, "buf": {"mode": "rel", "n": 0, "extra": 0}},
                             {"op": "decode", "ty": "Sd", "from": 3, "dest": "zero", "orig": vi}])
         steps = [{"op": "encode", "ty": "Steady", "v": 0, "buf": {"mode": "rel", "n": 0, "extra": 0}},   # registers Steady first
-                 {"op": "par", "threads": threads, "rounds": 3, "gomaxprocs": [2, 4, 16][k % 3]}]
+                 {"op": "par", "threads": threads, "rounds": 3, "gomaxprocs": [2, 4, 16][k % 3], "hooks": True}]
         sid = "C08-par-%d" % k
         scen.append({"sid": sid, "prop": prop, "vals": vals, "steps": steps, "tags": [], "dkey": sid})
     suite.run_batches(res, work, [Batch("stress", defs, scen, race=True)],
